@@ -95,7 +95,8 @@ def book_rules(repo, res, rule="BOOK"):
     res.check(ok, rule, f"{rule}:{fq}:unused_specializations:after-specialize", "computed after the expression and every definition were specialised", loc)
     # undefined = get_nonterm_refs(final expression)
     ud = A.resolve(P.ctor_field(site, "undefined_nonterminals"), env)
-    nest = RPL.call_nest(ud, {"get_nonterm_refs", "propagate_fallback_levels", "collapse_subwords", "resolve_nonterminals", "specialize_nonterminals"})
+    names_ = {"get_nonterm_refs", "propagate_fallback_levels", "collapse_subwords", "resolve_nonterminals", "specialize_nonterminals"}
+    nest = [n[3:] if n.startswith("do_") and n[3:] in names_ else n for n in RPL.call_nest(ud, names_ | {"do_" + x for x in names_})]  # a pass may be called as its worker `do_X`
     want = ["get_nonterm_refs", "propagate_fallback_levels", "collapse_subwords", "resolve_nonterminals", "specialize_nonterminals"]
     res.check(nest == want, rule, f"{rule}:{fq}:undefined_nonterminals", "undefined = " + " <- ".join(nest), loc)
     ex = A.resolve(P.ctor_field(site, "expr"), env)
